@@ -89,6 +89,7 @@ type lexer struct {
 	aliases   []*alias
 	stack     []int
 	arithExpr bool
+	started   bool
 	paren     int
 	heredoc   heredoc
 	word      ast.Word
@@ -876,6 +877,12 @@ Scan:
 }
 
 func (l *lexer) scanRawToken() int {
+	tok := l.scanRaw()
+	l.started = true
+	return tok
+}
+
+func (l *lexer) scanRaw() int {
 	for {
 		r, err := l.read()
 		if err != nil {
@@ -964,13 +971,36 @@ func (l *lexer) scanRawToken() int {
 			if l.lit(); len(l.word) != 0 {
 				return WORD
 			}
-			if !l.linebreak() {
+			if l.started {
+				// leave the <newline> which ends the comment
+				l.skipComment()
+			} else if !l.linebreak() {
 				return -1
 			}
 		default:
 			l.b.WriteRune(r)
 		}
 	}
+}
+
+// skipComment consumes a comment up to, but not including, the
+// <newline>.
+func (l *lexer) skipComment() {
+	l.read()
+	l.mark(-1)
+	for {
+		r, err := l.read()
+		if err != nil {
+			break
+		}
+		if r == '\n' {
+			l.unread()
+			break
+		}
+		l.b.WriteRune(r)
+	}
+	l.comment()
+	l.mark(0)
 }
 
 func (l *lexer) scanOp(r rune) (op int) {
